@@ -57,6 +57,7 @@ type Env struct {
 	Pkg   *packages.Package
 	Vars  map[types.Object]*Val
 	Hook  func(env *Env, e ast.Expr) (*Val, bool) // consulted first for every expression
+	Body  ast.Node                                // when set, locals with a single definition in Body are evaluated through it
 	depth int
 }
 
@@ -106,6 +107,11 @@ func (env *Env) eval(e ast.Expr) *Val {
 		o := objOf(info, x)
 		if v, ok := env.Vars[o]; ok {
 			return v
+		}
+		if env.Body != nil && o != nil {
+			if rhs := singleDef(info, env.Body, o); rhs != nil {
+				return env.eval(rhs)
+			}
 		}
 		env.fail(e, "identifier "+x.Name)
 	case *ast.SelectorExpr:
@@ -359,4 +365,50 @@ func constStr(info *types.Info, e ast.Expr) (string, bool) {
 		return constant.StringVal(tv.Value), true
 	}
 	return "", false
+}
+
+// singleDef returns the right-hand side of the only assignment to o inside body (1:1 assignments
+// and var declarations), or nil when there is none or more than one.
+func singleDef(info *types.Info, body ast.Node, o types.Object) ast.Expr {
+	var rhs ast.Expr
+	n := 0
+	ast.Inspect(body, func(x ast.Node) bool {
+		switch s := x.(type) {
+		case *ast.AssignStmt:
+			for i, l := range s.Lhs {
+				if objOf(info, l) == o {
+					n++
+					if len(s.Lhs) == len(s.Rhs) {
+						rhs = s.Rhs[i]
+					} else {
+						n++ // multi-value: not evaluable
+					}
+				}
+			}
+		case *ast.ValueSpec:
+			for i, nm := range s.Names {
+				if info.Defs[nm] == o {
+					n++
+					if i < len(s.Values) && len(s.Values) == len(s.Names) {
+						rhs = s.Values[i]
+					} else {
+						n++
+					}
+				}
+			}
+		case *ast.IncDecStmt:
+			if objOf(info, s.X) == o {
+				n += 2
+			}
+		case *ast.RangeStmt:
+			if (s.Key != nil && objOf(info, s.Key) == o) || (s.Value != nil && objOf(info, s.Value) == o) {
+				n += 2
+			}
+		}
+		return true
+	})
+	if n == 1 {
+		return rhs
+	}
+	return nil
 }
